@@ -202,7 +202,9 @@ class C19Engine(Engine):
                         c.r, c.w = await open_conn()
                     except (ConnectionError, FileNotFoundError, OSError, asyncio.TimeoutError) as e:
                         c.r = c.w = None
-                        if not stopped:
+                        if isinstance(e, asyncio.TimeoutError):
+                            state["inconclusive"] = "connect slow"
+                        elif not stopped:
                             fail("connect/refused-while-serving", repr(e))
                         continue
                     c.shaken = False
